@@ -72,11 +72,11 @@ func boolsFlags(f Bools) Flags {
 //@ theory bv
 //@ property C19 C20
 //@ prepare fs.Presence &^= 1; fs.Values &= fs.Presence
-//@ requires fs != nil && wfFlags(*fs)
+//@ requires fs != nil
 //@ modifies *fs
 //@ ensures presence: fs.Presence == old(fs.Presence)&^uint64(f)
 //@ ensures values: fs.Values == old(fs.Values)&^uint64(f)
-//@ ensures wf: f&1 == 0 ==> wfFlags(*fs)
+//@ ensures wf: wfFlags(old(*fs)) && f&1 == 0 ==> wfFlags(*fs)
 
 // Lemmas: the per-position reading of Join is "last wins"; Join is
 // associative, so joining separately, together, or nested is the same map.
